@@ -64,7 +64,7 @@ def enum_paths(body, limit=2000):
                 res += ev_node(a["body"], ev + [("arm", n, a)])
             return res
         if k == "Ret":
-            return [(ev + [("ret", n.get("e"))], n.get("e"), True)]
+            return [(ev + [("ret", n.get("e")), ("explicit-return", n)], n.get("e"), True)]
         if k == "Loop":
             raise Unsupported("loop")
         return [(ev + [("expr", n)], n, False)]
